@@ -126,6 +126,15 @@ add("C10", "MC_Perm: Sem(pi.adf) = pi.Sem(adf) for grounded / complete / two-val
     "for the model-enumerating semantics.",
     "TLA+ permutation lemma model-checked; TLC trace validation of answers across presentations (relational + oracle)", "6/C10")
 
+add("C15", "Cli.tla models the three arms of bin/src/main.rs as implemented (which flags each honours, print order); TLC checks over the whole "
+    "flag space (3 x 2^10 states) the documented order grounded < complete < stable and that the arms agree on the flags they share. The real binary, built "
+    "from the working tree, is launched on seeded files over libs x sorting flags x flag sets x heuristics; TLC derives the expected sections from Cli!Sections "
+    "and the definitional semantics of the logged ASTs, splits stdout by the expected section sizes and compares every slice as a set of label->value maps, "
+    "each exactly once, with the label order the sorting flag prescribes; malformed files (classified by TLC's own recogniser) must exit non-zero with empty stdout.",
+    "Trusted: TLC evaluating AdfSem / AdfSyntax / Cli; stdout tokenisation in the harness. Reading fixed in DESIGN.md: a flag an arm does not implement "
+    "contributes no section. Labels with operator characters under biodivine/hybrid are the listed known finding F9.",
+    "TLA+ model of the CLI arms model-checked over the flag space; TLC trace validation of real CLI runs against definitional semantics", "6/C15")
+
 def main():
     hooks = subprocess.run(["git", "-C", "/repo", "log", "--format=%H %s"], stdout=subprocess.PIPE, text=True).stdout.splitlines()
     hook_commits = [l.split()[0] for l in hooks if " verif hook" in l]
